@@ -50,6 +50,7 @@ class Spliced:
         self.rewrites = []     # human readable list of rewrites applied
         self.anchors = []      # dict(file, fn, line)
         self.repo_lines = 0
+        self.body_starts = []  # (generated line number of the line holding a hosted body's opening brace, label)
 
     def emit(self, text, origin):
         for k, ln in enumerate(text.split('\n')):
@@ -252,6 +253,7 @@ def splice(tmpl_path, repo_root):
                 at = idx if where == 'before' else idx + 1
                 blines[at:at] = buf
                 fixed[at:at] = [('tmpl', tmpl_line)] * len(buf)
+            out.body_starts.append((len(out.lines) + 1, cur['label'] if cur else a['fn']))
             for bl, org in zip(blines, fixed):
                 out.lines.append(bl)
                 out.origin.append(org)
